@@ -1,1 +1,122 @@
-(* Model/Poly.v -- stub, to be filled in *)
+(* Model/Poly.v -- src/polynomial/{mod,arithmetic}.rs over any Arith.  A polynomial is its
+   coefficient vector (index = power).  Definitions only. *)
+From Coq Require Import List Arith Lia Bool.
+From OV Require Import Base.Panic Base.Arith gen.Params.
+Import ListNotations.
+Local Open Scope arith_scope.
+Local Open Scope bool_scope.
+
+Section Poly.
+Context {A : Arith}.
+Notation T := (T A).
+Definition poly := list T.
+
+(* degree(): Err on the empty polynomial *)
+Definition pdegree (p : poly) : option nat :=
+  match p with [] => None | _ => Some (length p - 1)%nat end.
+
+(* eval: degree().unwrap(); Horner from the top coefficient *)
+Definition peval (p : poly) (x : T) : res T :=
+  match rev p with
+  | [] => Panic Unwrap
+  | c :: rest => Ok (fold_left (fun acc a => acc * x + a) rest c)
+  end.
+
+Definition is_zero (p : poly) : bool := forallb (fun c => eqb c zero) p.
+
+(* trim: i = len-1 (underflow on empty); while coeffs[i] == 0 && i > 0 { pop; i -= 1 } *)
+Fixpoint trim_rev (r : list T) : list T :=
+  match r with
+  | c :: ((_ :: _) as t) => if eqb c zero then trim_rev t else r
+  | _ => r
+  end.
+Definition ptrim (p : poly) : res poly :=
+  match p with [] => Panic Underflow | _ => Ok (rev (trim_rev (rev p))) end.
+
+(* &p + &q : empty-operand shortcuts, then over the longer length:
+   sum[i] = 0; if i <= deg p { sum[i] = sum[i] + p[i] }; if i <= deg q { sum[i] = sum[i] + q[i] } *)
+Definition opt_acc (f : T -> T -> T) (acc : T) (o : option T) : T :=
+  match o with Some a => f acc a | None => acc end.
+Definition padd (p q : poly) : poly :=
+  match p, q with
+  | [], _ => q
+  | _, [] => p
+  | _, _ => map (fun i => opt_acc add (opt_acc add zero (nth_error p i)) (nth_error q i))
+                (seq 0 (Nat.max (length p) (length q)))
+  end.
+Definition pneg (p : poly) : poly := map neg p.
+Definition psub (p q : poly) : poly :=
+  match p, q with
+  | [], _ => pneg q
+  | _, [] => p
+  | _, _ => map (fun i => opt_acc sub (opt_acc add zero (nth_error p i)) (nth_error q i))
+                (seq 0 (Nat.max (length p) (length q)))
+  end.
+
+(* &p * &q : convolution; product[i+j] += p[i]*q[j] with i outer, j inner, so coefficient k
+   accumulates its terms in order of increasing i *)
+Definition pmul_coeff (p q : poly) (k : nat) : T :=
+  fold_left (fun acc i =>
+     match nth_error p i, (if i <=? k then nth_error q (k - i) else None) with
+     | Some a, Some b => acc + a * b
+     | _, _ => acc
+     end) (seq 0 (length p)) zero.
+Definition pmul (p q : poly) : poly :=
+  match p, q with
+  | [], _ => []
+  | _, [] => []
+  | _, _ => map (pmul_coeff p q) (seq 0 (length p + length q - 1)%nat)
+  end.
+Definition pscale (p : poly) (s : T) : poly := map (fun x => x * s) p.
+
+(* derivative: coefficient i is a_{i+1} added to zero (i+1) times -- no numeric cast *)
+Fixpoint add_times (n : nat) (a : T) (acc : T) : T :=
+  match n with 0 => acc | S n' => add_times n' a (acc + a) end.
+Definition pderiv (p : poly) : res poly :=
+  match p with
+  | [] => Panic Unwrap
+  | _ :: t => Ok (map (fun i => add_times (i + 1) (nth i t zero) zero) (seq 0 (length t)))
+  end.
+Fixpoint pderiv_n (p : poly) (n : nat) : res poly :=
+  match n with 0 => Ok p | S n' => let* d := pderiv p in pderiv_n d n' end.
+Definition pderiv_at (p : poly) (x : T) (n : nat) : res T :=
+  let* d := pderiv_n p n in peval d x.
+Definition pindex (p : poly) (i : nat) : res T :=
+  if length p <=? i then Panic Guard else rd p i.
+
+(* polydiv *)
+Inductive pderr := EZeroDiv | EMaxIter.
+
+(* one pass of the loop body; [fixed] = repaired code (cancelled leading term set to zero) *)
+Definition polydiv_body (fixed : bool) (q r v : poly) : res (poly * poly) :=
+  let dr := (length r - 1)%nat in let dv := (length v - 1)%nat in
+  let* rl := rd r dr in
+  let* vl := rd v dv in
+  let* c := div rl vl in
+  let t := repeat zero (dr - dv) ++ [c] in
+  let q := padd q t in
+  let r := psub r (pmul t v) in
+  let* r := (if fixed then let* l := usub (length r) 1 in upd r l zero else Ok r) in
+  let* r := ptrim r in
+  let* q := ptrim q in
+  Ok (q, r).
+
+Fixpoint polydiv_loop (fixed : bool) (fuel count : nat) (q r v : poly) : res (poly * poly + pderr) :=
+  if is_zero r || (length r <? length v) then Ok (inl (q, r)) else
+  match fuel with
+  | 0 => Ok (inr EMaxIter)
+  | S fuel' =>
+      let* qr := polydiv_body fixed q r v in
+      let count := S count in
+      if POLYDIV_MAX <? count then Ok (inr EMaxIter)
+      else polydiv_loop fixed fuel' count (fst qr) (snd qr) v
+  end.
+
+Definition polydiv_gen (fixed : bool) (u v : poly) : res (poly * poly + pderr) :=
+  if (length v =? 0) then Ok (inr EZeroDiv) else
+  if is_zero v then Ok (inr EZeroDiv) else
+  polydiv_loop fixed (S POLYDIV_MAX) 0 [] u v.
+Definition polydiv := polydiv_gen true.
+Definition polydiv_legacy := polydiv_gen false.
+
+End Poly.
